@@ -25,5 +25,5 @@ if [ -n "$DEMO" ]; then
 fi
 for id in "$@"; do
   echo "== check $id against the change"
-  ( cd /verif && VERIF_REPO="$W/mut" timeout 900 ./check "$id" 2>&1 | grep -a "^VIOLATION\|sig=\|^$id tier\|infrastructure" | cut -c1-220 | head -12 )
+  ( cd /verif && VERIF_OUT="$W/out" VERIF_REPO="$W/mut" timeout 900 ./check "$id" 2>&1 | grep -a "^VIOLATION\|sig=\|^$id tier\|infrastructure" | cut -c1-220 | head -12 )
 done
